@@ -912,6 +912,12 @@ def run_e2e_shard(prop, spec):
     elif case == "hostile":
         v, nt, inc = run(hostile_case, backend, seed, counters)
         main = "e2e_probes"
+    elif case == "c14":
+        v, nt, inc = run(c14_case, backend, spec.get("workers", 2), seed, counters)
+        main = "e2e_role_readbacks"
+    elif case == "c17":
+        v, nt, inc = run(c17_case, backend, spec.get("workers", 2), seed, counters)
+        main = "e2e_collector_judgements"
     elif case == "c16":
         v, nt, inc = run(c16_case, backend, spec.get("workers", 2), seed, counters)
         main = "e2e_allow_list_decisions"
@@ -1019,6 +1025,254 @@ async def c16_case(backend, workers, seed, counters):
                     break
                 await asyncio.sleep(0.05)
             await first_contact("worker-respawn")
+    finally:
+        for c in conns:
+            await c.close()
+        srv.stop()
+    return viols, nontrivial, inconcl
+
+
+# ---------------------------------------------------------------------------------------------------
+# C14: roles and the output validator across worker processes
+# ---------------------------------------------------------------------------------------------------
+async def c14_case(backend, workers, seed, counters):
+    r = random.Random(seed)
+    viols, nontrivial, inconcl = [], [], []
+    service = ref.key_from_seed("service")
+    p1, p2 = ref.key_from_seed("e2e-c14-p1"), ref.key_from_seed("e2e-c14-p2")
+    srv = e2e.Server(backend=backend, workers=workers, overrides={
+        "authentication": {"enabled": True, "actions": {"save": "w", "query": "a"}},
+        "service_privatekey": service.sk_hex, "output_validator": "vf.ov.check"})
+    url = "ws://127.0.0.1:%d/" % srv.port
+    srv.cfg["authentication"]["relay_urls"] = [url]
+    import yaml
+
+    with open(srv.conf, "w") as fp:
+        yaml.safe_dump(srv.cfg, fp)
+    rp = {"mode": "e2e", "e2e": "c14", "backend": backend, "workers": workers, "seed": seed}
+    conns = []
+    n = [0]
+
+    def V(key_, msg):
+        viols.append({"key": "e2e/%s/%s" % (backend, key_), "msg": "[e2e %s, %d worker processes] %s" % (backend, workers, msg), "replay": rp})
+
+    import websockets
+
+    async def login(c, key):
+        ch = next((m[1] for _, m in c.parsed() if isinstance(m, list) and m[:1] == ["AUTH"]), None)
+        try:
+            await c.send(["AUTH", ref.make_event(key, kind=22242, created_at=int(time.time()), tags=[["relay", url], ["challenge", ch]], content="")])
+        except websockets.exceptions.ConnectionClosed:
+            return
+        await asyncio.sleep(0.3)
+
+    async def can_save(c, key, content=None):
+        """True / False as the OK frame says; False also when the relay has closed the connection"""
+        n[0] += 1
+        ev = ref.make_event(key, kind=1, created_at=int(time.time()), tags=[["t", "c14"]], content=content or "c14 e2e %d %d" % (seed, n[0]))
+        try:
+            n0 = await c.send(["EVENT", ev])
+        except websockets.exceptions.ConnectionClosed:
+            bump(counters, "e2e_connections_closed_by_relay")
+            return False, ev
+        fr = await c.wait_for(lambda fr: [m for m in fr if isinstance(m, list) and m[:1] == ["OK"]], timeout=30, since=n0)
+        if not fr and c.closed is not None:
+            bump(counters, "e2e_connections_closed_by_relay")
+            return False, ev
+        return (fr[-1][2] if fr else None), ev
+
+    async def fresh(prefix, per_worker=1, cap=30):
+        async def setup(c):
+            if not await c.wait_for(lambda fr: any(isinstance(m, list) and m[:1] == ["AUTH"] for m in fr), timeout=20):
+                raise e2e_inconclusive("no AUTH challenge on a fresh connection")
+        cs = await spread(srv, prefix, per_worker, cap, setup)
+        conns.extend(cs)
+        return cs
+
+    try:
+        srv.set_roles({p1.pk: "w", p2.pk: "w"})
+        srv.start()
+        # ---- (1) role assignments read back as LAST set, on every worker, however they were made --------
+        steps = [("admin-process", "r"), ("admin-process", "w"), ("admin-process", "")]
+        if backend == "lmdb":
+            # on LMDB an assignment is an event of the relay's service key; it can also arrive through a worker
+            steps = [("via-a-worker", "r"), ("via-another-worker", "w"), ("admin-process", "r"), ("via-a-worker", "w"), ("via-another-worker", "r")]
+        last_worker = None
+        for how, roles in steps:
+            cs = await fresh("r%d-" % n[0], 2)
+            byw = {}
+            for c in cs:
+                byw.setdefault(c.worker, []).append(c)
+            if workers > 1 and len([w for w in byw if w is not None]) < 2:
+                inconcl.append("e2e c14: all connections landed on one worker process")
+                break
+            # everybody logs in BEFORE the change (a worker that remembers what it saw is warmed up), half of them again after it
+            for c in cs[::2]:
+                await login(c, p1)
+            await asyncio.sleep(1.2)  # assignments are ordered by their (whole second) timestamps
+            if how == "admin-process":
+                srv.set_roles({p1.pk: roles})
+            else:
+                ws = [w for w in byw if w != last_worker] if how == "via-another-worker" else list(byw)
+                w = r.choice(ws or list(byw))
+                last_worker = w
+                n[0] += 1
+                role_ev = ref.make_event(service, kind=31494, created_at=int(time.time()), tags=[["t", "auth"], ["d", "auth:%s" % p1.pk], ["p", p1.pk]], content=roles)
+                carrier = byw[w][-1]
+                await login(carrier, service)
+                n0 = await carrier.send(["EVENT", role_ev])
+                await carrier.wait_for(lambda fr: [m for m in fr if isinstance(m, list) and m[:1] == ["OK"]], timeout=30, since=n0)
+            await asyncio.sleep(1.0)
+            for c in cs:
+                if backend == "lmdb" and how != "admin-process" and c is byw[last_worker][-1]:
+                    continue
+                await login(c, p1)
+                ok, ev = await can_save(c, p1)
+                bump(counters, "e2e_role_readbacks")
+                nontrivial.append(h(["e2e-c14", backend, how, roles, c.worker == last_worker]))
+                want = "w" in roles
+                if ok is None:
+                    inconcl.append("e2e c14: no OK for an EVENT after AUTH")
+                elif bool(ok) != want:
+                    V("roles/readback-differs-between-workers/%s" % how,
+                      "roles of a key were set to %r (%s); a connection on worker %s that authenticated afterwards %s save (OK=%s)"
+                      % (roles, how, c.worker, "may" if ok else "may not", ok))
+            for c in cs:
+                await c.close()
+        # ---- (2) the output validator also guards pushes that come from another worker -------------------
+        await asyncio.sleep(1.2)
+        srv.set_roles({p1.pk: "w"})
+        subs = await fresh("s", 2)
+        for c in subs:
+            await c.send(["REQ", "s", {"kinds": [1], "#t": ["c14"]}])
+            await c.wait_for(lambda fr: any(isinstance(m, list) and m[:1] == ["EOSE"] for m in fr), timeout=30)
+        pubs = await fresh("p", 1, 16)
+        await asyncio.sleep(3.0)
+        sent = []
+        for c in pubs:
+            await login(c, p1)
+            for content in ("visible %d" % n[0], "deny-output %d" % n[0], "visible again %d" % n[0]):
+                ok, ev = await can_save(c, p1, content + " w%s" % c.worker)
+                if ok is True:
+                    sent.append((ev, c))
+        await e2e.settle(conns, quiet=1.5, timeout=60)
+        for ev, pc in sent:
+            denied = "deny-output" in ev["content"]
+            for c in subs:
+                got = sum(1 for _, m in event_frames(c, "s") if isinstance(m[2], dict) and m[2].get("id") == ev["id"])
+                cross = pc.worker != c.worker
+                bump(counters, "e2e_output_validator_pairs")
+                if cross:
+                    bump(counters, "e2e_output_validator_cross_worker_pairs")
+                nontrivial.append(h(["e2e-c14", backend, "ov", denied, cross]))
+                if denied and got:
+                    V("sent-without-output-validator/live/%s" % ("other-worker" if cross else "same-worker"),
+                      "an event the configured output validator refuses was pushed to a subscriber on worker %s (published on worker %s)" % (c.worker, pc.worker))
+                if not denied and got != 1:
+                    V("output-validator/approved-event-%s/%s" % ("lost" if got == 0 else "duplicated", "other-worker" if cross else "same-worker"),
+                      "an event the output validator approves was pushed %d times to a subscriber on worker %s (published on worker %s)" % (got, c.worker, pc.worker))
+    except e2e_inconclusive as e:
+        inconcl.append("e2e: %s" % e)
+    finally:
+        for c in conns:
+            await c.close()
+        srv.stop()
+    return viols, nontrivial, inconcl
+
+
+# ---------------------------------------------------------------------------------------------------
+# C17: the periodic collector of a multi-worker server, and what an orderly restart leaves alone
+# ---------------------------------------------------------------------------------------------------
+async def c17_case(backend, workers, seed, counters):
+    r = random.Random(seed)
+    viols, nontrivial, inconcl = [], [], []
+    srv = e2e.Server(backend=backend, workers=workers, overrides={"garbage_collector": {"collect_interval": 2}})
+    rp = {"mode": "e2e", "e2e": "c17", "backend": backend, "workers": workers, "seed": seed}
+    key = ref.key_from_seed("e2e-c17")
+    conns = []
+
+    def V(key_, msg):
+        viols.append({"key": "e2e/%s/%s" % (backend, key_), "msg": "[e2e %s, %d worker process(es)] %s" % (backend, workers, msg), "replay": rp})
+
+    async def stored_ids(c, ids):
+        n0 = await c.send(["REQ", "q%d" % Seq_n(), {"ids": ids}])
+        sid = json.loads(c_last_sent[0])[1]
+        await c.wait_for(lambda fr: any(isinstance(m, list) and m[:2] == ["EOSE", sid] for m in fr), timeout=30, since=n0)
+        return {m[2].get("id") for _, m in event_frames(c, sid)}
+
+    c_last_sent = [None]
+    seqn = [0]
+
+    def Seq_n():
+        seqn[0] += 1
+        return seqn[0]
+
+    try:
+        srv.start()
+        pubs = await spread(srv, "p", 1, 24)
+        conns.extend(pubs)
+        byw = {}
+        for c in pubs:
+            byw.setdefault(c.worker, c)
+        if workers > 1 and len(byw) < 2:
+            inconcl.append("e2e c17: all connections landed on one worker process")
+        for c in pubs:
+            orig_send = c.send
+
+            async def send(obj, _o=orig_send):
+                c_last_sent[0] = json.dumps(obj)
+                return await _o(obj)
+            c.send = send
+        now = int(time.time())
+        plan_ = []
+        for w, c in byw.items():
+            # through EVERY worker: what a pass must remove and what it must leave alone
+            for label, kind, tags, must_go in (
+                ("ephemeral", 20001, [], True), ("ephemeral-top", 29999, [], True), ("expired", 1, [["expiration", str(now - 50)]], True),
+                ("expires-later", 1, [["expiration", str(now + 3600)]], False), ("plain", 1, [], False), ("kind-30000", 30000, [["d", "w%s" % w]], False),
+                ("kind-19999", 19999, [], False), ("malformed-expiration", 1, [["expiration", "soon"]], False), ("expires-soon", 1, [["expiration", str(now + 4)]], True),
+            ):
+                # a key per worker: the replaceable kinds of one worker must not supersede those of another
+                ev = ref.make_event(ref.key_from_seed("e2e-c17-w%s" % len([x for x in byw if x <= w])), kind=kind, created_at=now - 10, tags=tags,
+                                    content="c17 e2e %s w%s %d" % (label, w, seed))
+                n0 = await c.send(["EVENT", ev])
+                fr = await c.wait_for(lambda fr: [m for m in fr if isinstance(m, list) and m[:2] == ["OK", ev["id"]]], timeout=30, since=n0 - 1)
+                if fr and fr[-1][2] is True:
+                    plan_.append((label, ev, must_go, w))
+        # several passes of the 2 s collector (it runs in one elected worker only)
+        await asyncio.sleep(9.0)
+        q = pubs[0]
+        if backend == "lmdb":
+            plan_ = [p for p in plan_ if not p[0].startswith("ephemeral")]  # never stored there
+        got = await stored_ids(q, [ev["id"] for _, ev, _, _ in plan_])
+        for label, ev, must_go, w in plan_:
+            bump(counters, "e2e_collector_judgements")
+            nontrivial.append(h(["e2e-c17", backend, label, w == q.worker]))
+            if must_go and ev["id"] in got:
+                V("survived/%s/stored-through-%s" % (label, "the-querying-worker" if w == q.worker else "another-worker"),
+                  "%s event stored through worker %s is still returned after several collector passes (interval 2 s, 9 s waited)" % (label, w))
+            if not must_go and ev["id"] not in got:
+                V("removed/%s" % label, "%s event stored through worker %s is gone after collector passes" % (label, w))
+        # an orderly restart collects nothing by itself and loses nothing
+        keep = [(label, ev) for label, ev, must_go, w in plan_ if not must_go]
+        for c in conns:
+            await c.close()
+        del conns[:]
+        srv.stop()
+        srv.start()
+        q = await e2e.Client(srv, "q2").connect()
+        conns.append(q)
+        orig_send = q.send
+
+        async def send2(obj, _o=orig_send):
+            c_last_sent[0] = json.dumps(obj)
+            return await _o(obj)
+        q.send = send2
+        got = await stored_ids(q, [ev["id"] for _, ev in keep])
+        for label, ev in keep:
+            bump(counters, "e2e_restart_survivors_checked")
+            if ev["id"] not in got:
+                V("removed-by-restart/%s" % label, "%s event (not collectable) is gone after an orderly shutdown and restart" % label)
     finally:
         for c in conns:
             await c.close()
